@@ -18,7 +18,8 @@
 From Coq Require Import List NArith Bool.
 Import ListNotations.
 From L4 Require Import Common.FSRoll Common.LockSerial Model.Rolling
-  Proofs.Rolling Proofs.RollingStream Proofs.RollingConc Model.RollingBg Proofs.RollingBg.
+  Proofs.Rolling Proofs.RollingStream Proofs.RollingConc Model.RollingBg Proofs.RollingBg
+  Model.RollingFail Proofs.RollingFail.
 
 (* For every append-mode history, trigger and roller: the acknowledged stream
    (pre-existing content, then the records in call order) splits as
@@ -178,6 +179,22 @@ Example C05_example_schedule :
   /\ map (fun n => lookup (files (fst (shared sh (list bytes) st))) n) [Active; Arch 0; Arch 1]
      = [Some [66]%N; Some [67;68;65]%N; None].
 Proof. vm_compute. repeat split; reflexivity. Qed.
+
+(* A roller that ROTATES and then reports failure (a user Roll impl whose post-processing fails, a notification that
+   cannot be sent): for every trigger and roller the appender is left as after a successful append whenever the record
+   was written; under a pre-processing trigger that fired the call returns Err with the rotation done, the writer slot
+   empty and the record - not acknowledged - not written.  The stream invariant over the ACKNOWLEDGED records is
+   therefore the one of the same history with working rollers. *)
+Theorem C05_roller_failing_after_rotation :
+  forall c chunks s, Good s ->
+    let r := append_op_fail_after c chunks s in
+    (snd r = false -> fst (fst r) = fst (append_op c chunks s)) /\
+    (snd r = true -> is_pre (trig c) = false -> fst (fst r) = fst (append_op c chunks s)) /\
+    (snd r = true -> is_pre (trig c) = true ->
+       files (fst (fst r)) = do_roll (roll_by c) (files (get_writer s)) /\ writer (fst (fst r)) = None /\
+       wrote (snd (fst r)) = []).
+Proof. exact fail_after_is_append_or_unacknowledged. Qed.
+Print Assumptions C05_roller_failing_after_rotation.
 
 (* ---- background rotation (`background_rotation` feature) ----
    Model/RollingBg.v: the appender's file-system calls (derived from the model
